@@ -476,6 +476,11 @@ class SymRng:
         n = int(size) if size is not None else 1
         d = len(mean)
         cells = [[core.fresh("real", "mvn") for _ in range(d)] for _ in range(n)]
+        # numpy reads its arguments at call time: snapshot them (the kernel reuses the same buffers for the next row)
+        if isinstance(mean, symnp.SymArray):
+            mean = symnp.SymArray(mean.a.copy(), mean.dtype)
+        if isinstance(cov, symnp.SymArray):
+            cov = symnp.SymArray(cov.a.copy(), cov.dtype)
         self.draws.append(("mvn", mean, cov, n, cells, self.pos))
         self.w.event("mvn", self.key, self.pos)
         self.pos += 1
